@@ -163,13 +163,18 @@ func c07Inputs(rng *Rng, cfg *configuration.Configuration, tier string) ([]byte,
 	}
 }
 
+var abortC07 bool
+
 func runC07(r *Run) {
 	note := r.noteCurrent
 	r.each(func(idx int, rng *Rng) {
+		if abortC07 {
+			return // a call is still running in the background after a reported hang
+		}
 		cfg := configuration.New()
 		rulesOn := rng.P(2, 3)
 		cfg.Marshal.EnforceRules = rulesOn
-		limit := 30 * time.Second
+		limit := 120 * time.Second
 		if idx%7 == 6 {
 			// ---- marshal a Go value
 			var v interface{}
@@ -287,6 +292,7 @@ func runC07(r *Run) {
 			key := e.name
 			if hung {
 				r.out.Finding("C07", "hang:"+key, fmt.Sprintf("%s does not return within %v on a %s input of %d bytes (template %s, rules %v)", e.name, limit, what, len(doc), tname, rulesOn), trunc(hx(doc), 2000))
+				abortC07 = true
 				return // the goroutine is still running: do not pile more work on this process
 			} else if strings.HasPrefix(res, "PANIC") {
 				r.out.Finding("C07", "panic:"+key, fmt.Sprintf("%s lets a panic escape on a %s input (template %s, rules %v): %s", e.name, what, tname, rulesOn, trunc(res, 200)), trunc(hx(doc), 2000))
